@@ -142,7 +142,7 @@ pub fn run_batch(
     deadline: Option<Instant>,
     case: &(dyn Fn(u64) -> CaseRecord + Sync),
 ) -> (Aggregate, f64) {
-    crate::hook::ensure_installed();
+    crate::hook::warm_up();
     let next = AtomicU64::new(0);
     let stop = AtomicBool::new(false);
     let agg = Mutex::new(Aggregate::default());
